@@ -1,0 +1,21 @@
+//go:build verif
+
+package swagen30
+
+// Contracts for gvc (see /verif/DESIGN.md). Comment-only: this file adds no code to any build.
+
+// kin-openapi's validator: assumed to report its verdict and nothing else.
+//@ extern github.com/getkin/kin-openapi/openapi3.T.Validate
+//@ emits validatedSpec(result == nil)
+
+// Placeholders: the three emitters change the document (any heap) but cause no event.
+//@ func GenerateSecuritySpec trusted havocs
+//@ func GenerateModelsSpec trusted havocs
+//@ func GenerateControllersSpec trusted havocs
+
+//@ func GenerateSpec props C08,C14 havocs
+//@ requires config != nil
+//@ mayemit validatedSpec
+//@ ensures gate: implies(result1 == nil, evcount(validatedSpec) == old(evcount(validatedSpec))+1 && evlast(validatedSpec, 0))
+//@ ensures failed: implies(result1 != nil, len(result0) == 0)
+//@ ensures once: evcount(validatedSpec) <= old(evcount(validatedSpec))+1
